@@ -246,4 +246,138 @@ theorem pairAll_sort_number (ct : Bool) :
     · rw [pairAll_cons, pairAll_cons]
       exact ih _
 
+/-! ### the elements of one note, note by note -/
+
+abbrev numLt : Mark → Mark → Bool := fun a b => decide (a.number < b.number)
+abbrev typeLt : Mark → Mark → Bool := fun a b => !a.isStart && b.isStart
+
+theorem insertMark_perm (lt : Mark → Mark → Bool) (x : Mark) (l : List Mark) : (insertMark lt x l).Perm (x :: l) := by
+  induction l with
+  | nil => simp [insertMark]
+  | cons y ys ih =>
+    unfold insertMark
+    split
+    · exact (List.Perm.cons y ih).trans (List.Perm.swap x y ys)
+    · exact List.Perm.refl _
+
+theorem sortMarks_perm (lt : Mark → Mark → Bool) (l : List Mark) : (sortMarks lt l).Perm l := by
+  induction l with
+  | nil => simp [sortMarks]
+  | cons x xs ih => exact (insertMark_perm lt x _).trans (List.Perm.cons x ih)
+
+/-- stops before starts -/
+def TypeSorted (l : List Mark) : Prop := l.Pairwise fun a b => typeLt b a = false
+
+theorem sortMarks_type_id {l : List Mark} (h : TypeSorted l) : sortMarks typeLt l = l := by
+  induction l with
+  | nil => rfl
+  | cons x xs ih =>
+    unfold sortMarks
+    rw [ih (List.pairwise_cons.mp h).2]
+    cases xs with
+    | nil => rfl
+    | cons y ys =>
+      have := (List.pairwise_cons.mp h).1 y (List.mem_cons_self ..)
+      simp only [insertMark, this, Bool.false_eq_true, if_false]
+
+theorem noteOrder_eq {l : List Mark} (h : TypeSorted l) : noteOrder l = sortMarks numLt l := by
+  unfold noteOrder
+  rw [sortMarks_type_id h]
+
+theorem typeSorted_append {A B : List Mark} (hA : ∀ a ∈ A, a.isStart = false) (hB : ∀ b ∈ B, b.isStart = true) :
+    TypeSorted (A ++ B) := by
+  unfold TypeSorted
+  rw [List.pairwise_append]
+  refine ⟨?_, ?_, ?_⟩
+  · refine List.pairwise_of_forall_mem_list ?_
+    intro a ha b _
+    simp [typeLt, hA a ha]
+  · refine List.pairwise_of_forall_mem_list ?_
+    intro a _ b hb
+    simp [typeLt, hB b hb]
+  · intro a ha b hb
+    simp [typeLt, hA a ha]
+
+/-- reading the groups note by note, each in the importer's order, is reading them as written -/
+theorem pairAll_groups (ct : Bool) :
+    ∀ (groups : List (List Mark)) (s : PState), (∀ g ∈ groups, TypeSorted g) →
+      PEq (pairAll ct s (groups.flatMap noteOrder)) (pairAll ct s groups.flatten) := by
+  intro groups
+  induction groups with
+  | nil => intro s _; exact PEq.refl _
+  | cons g rest ih =>
+    intro s h
+    rw [List.flatMap_cons, List.flatten_cons, pairAll_append, pairAll_append,
+      noteOrder_eq (h g (List.mem_cons_self ..))]
+    refine (pairAll_congr ct _ (pairAll_sort_number ct g s)).trans ?_
+    exact ih _ (fun g' hg' => h g' (List.mem_cons_of_mem _ hg'))
+
+/-- the runs of one note: none is empty, a run belongs to one note, neighbouring runs to different notes -/
+def GroupsOK : List (List Mark) → Prop
+  | [] => True
+  | g :: rest =>
+    g ≠ [] ∧ (∀ a ∈ g, ∀ b ∈ g, a.note = b.note) ∧
+      (∀ a ∈ g, ∀ g' ∈ rest.head?, ∀ b ∈ g', a.note ≠ b.note) ∧ GroupsOK rest
+
+theorem groupByNote_cons_run (m : Mark) (g : List Mark) (gs : List (List Mark)) (rest : List Mark)
+    (h : groupByNote rest = g :: gs) :
+    groupByNote (m :: rest) =
+      match g with
+      | [] => [m] :: gs
+      | x :: _ => if x.note = m.note then (m :: g) :: gs else [m] :: g :: gs := by
+  cases g <;> simp [groupByNote, h]
+
+theorem groupByNote_flatten : ∀ (groups : List (List Mark)), GroupsOK groups →
+    groupByNote groups.flatten = groups := by
+  intro groups
+  induction groups with
+  | nil => intro _; rfl
+  | cons g rest ih =>
+    intro h
+    obtain ⟨hne, hsame, hdiff, hrest⟩ := h
+    have ihr := ih hrest
+    rw [List.flatten_cons]
+    -- run through the elements of `g`
+    suffices hkey : ∀ (g1 : List Mark), g1 ≠ [] → (∀ a ∈ g1, a ∈ g) →
+        groupByNote (g1 ++ rest.flatten) = g1 :: rest from hkey g hne (fun a ha => ha)
+    intro g1
+    induction g1 with
+    | nil => intro h; exact absurd rfl h
+    | cons m g2 ih2 =>
+      intro _ hsub
+      cases g2 with
+      | nil =>
+        simp only [List.cons_append, List.nil_append]
+        cases hr : rest with
+        | nil => simp [groupByNote]
+        | cons g' gs =>
+          have hg' : groupByNote (rest.flatten) = g' :: gs := by rw [ihr, hr]
+          rw [hr] at hg'
+          rw [groupByNote_cons_run m g' gs _ hg']
+          have hg'ne : g' ≠ [] := by rw [hr] at hrest; exact hrest.1
+          cases g' with
+          | nil => exact absurd rfl hg'ne
+          | cons x xs =>
+            have : x.note ≠ m.note := by
+              have := hdiff m (hsub m (List.mem_cons_self ..)) (x :: xs) (by rw [hr]; simp) x (List.mem_cons_self ..)
+              exact fun hc => this hc.symm
+            simp [this]
+      | cons m2 g3 =>
+        have ih' := ih2 (by simp) (fun a ha => hsub a (List.mem_cons_of_mem _ ha))
+        simp only [List.cons_append] at ih' ⊢
+        rw [groupByNote_cons_run m (m2 :: g3) rest _ ih']
+        have : m2.note = m.note :=
+          hsame m2 (hsub m2 (List.mem_cons_of_mem _ (List.mem_cons_self ..))) m (hsub m (List.mem_cons_self ..))
+        simp [this]
+
+/-- **what the importer's `readMarks` does with groups written stops-first**: the same as reading them in the
+    written order -/
+theorem readMarks_groups (ct : Bool) (groups : List (List Mark)) (hok : GroupsOK groups)
+    (hts : ∀ g ∈ groups, TypeSorted g) :
+    PEq (readMarks ct groups.flatten)
+      (pairAll ct { ongoing := fun _ => none, done := [], lost := [] } groups.flatten) := by
+  unfold readMarks
+  rw [groupByNote_flatten groups hok]
+  exact pairAll_groups ct groups _ hts
+
 end C03.Order
